@@ -92,3 +92,8 @@ def run(ctx):
     ctx.coverage["distinct_nontrivial"] = sum(s["with_errors"] for s in ctx.coverage["suites"].values())
     ctx.coverage["rule"] = "traces of both engines on random charts with failing elements at random positions (p=0.15 per element) and top-level finals; non-trivial = run processes at least one error event"
     ctx.assumptions += ["cancel() at a chosen step is exercised by the C10 lifecycle suite"]
+
+
+def replay(ctx, path):
+    import uvlib
+    return uvlib.generic_replay(ctx, path, [(None, "trace", "trace", None)])
